@@ -22,6 +22,10 @@ TEXT = {
          "Kani/CBMC; database pick modelled by the specification's pick; async manager functions (get_user_data, get_user_state_versions, batch_get, begin/commit/rollback) not covered"),
  "C17": ("Bounded model checking of NodeLabel operations against an independent bit-string oracle: loop-free operations for ALL 32-byte values and ALL lengths 0..=256; is_prefix_of and get_longest_common_prefix for all bit patterns up to the stated symbolic length bound, both shipped configurations.",
          "Kani/CBMC; alloc::fmt::format stubbed (constant message); symbolic-length loops beyond the stated widths are outside the claim"),
+ "C06": ("Bounded model checking of the real lookup_verify (and the base.rs helpers it calls) with EVERY field of the LookupProof symbolic, against an honest directory state with symbolic values, nonces and epochs: an accepted proof reports exactly the latest update; the honest proof verifies. Tree-level verification is replaced by the membership oracle justified by C05 (natively, for replay, real proofs and the real tree verifiers are used).",
+         "Kani/CBMC; ideal hash, ideal VRF (cfg hook), membership oracle stubs; <= 3 versions, epochs <= 7, 0-2 byte values/nonces; Kani pointer checks off and allocator-model artefacts ignored (DESIGN 3.1)"),
+ "C07": ("Bounded model checking of the history verifier in three layers, each over the real code: (shape) verify_with_history_params with arbitrary symbolic versions, epochs and parameters; (helpers) each base.rs verification helper against its specification over the honest tree; (update) verify_single_update_proof with every field symbolic - value/epoch/version truth, tombstone opt-in, previous-version stale marker stamped with the same epoch, trees with a missing or late stale marker. One known finding (F-C07) is reported, keyed by its assertion. The loop of key_history_verify that strings these together is outside the claim.",
+         "Kani/CBMC; ideal hash, ideal VRF, membership oracle; get_marker_versions replaced by a table regenerated from the real function each run; <= 4 update proofs (shape), <= 3 honest versions, epochs <= 7"),
  "C08": ("Bounded symbolic execution of the rustc MIR of get_marker_versions (and helpers) into bit-vector SMT, regenerated from /repo on every run: the marker arithmetic that makes lookup and history proofs contradict each other is decided for ALL version/epoch triples below the stated width, on the real code's outputs, with unwinding assertions as queries; the one combination that does not conflict (single-marker lookup vs. complete history, F-C08) is reported as a known finding keyed by a closed-form predicate, any other hole is a violation.",
          "own MIR->SMT encoder (vk/mirsmt) with ~17 std models, validated against native execution every run; z3 5.1 (bit-blast+SAT) decides, z3 4.8.12 / cvc5 cross-check; what accepted proofs commit the server to is read off the verifiers (C06/C07) and tree-level exclusivity is C05"),
  "C05": ("Bounded model checking of the real verify_membership / verify_nonmembership compiled against an ideal (injective, hash-consing) hash: for every leaf set, query label and candidate proof within the bound, a proof verifies only for a true statement, and proofs of the documented honest shape verify.",
@@ -50,7 +54,7 @@ m = {
    "guard": "--cfg facebook_akd_verif",
    "enable": "RUSTFLAGS=\"--cfg facebook_akd_verif\" (set by the runner for every harness crate build; harness crates depend on /repo/akd_core and /repo/akd by path)",
    "baseline_off_cmd": "cd /repo && cargo nextest run --workspace --no-fail-fast --tool-config-file pb:/w/lib/nextest.toml --profile pb --test-threads 8 --offline",
-   "source_commits": ["cdd0823"],
+   "source_commits": ["cdd0823", "27c59b8", "fb68eb8", "3322da5"],
    "add_only": True,
  },
  "engines": [
